@@ -111,6 +111,26 @@ pub assume_specification [core::cmp::Ordering::then] (a: core::cmp::Ordering, b:
 #[verifier::accept_recursive_types(T)]
 #[verifier::reject_recursive_types(A)]
 pub struct ExBinaryHeap<T, A: core::alloc::Allocator>(std::collections::BinaryHeap<T, A>);
+/// std BinaryHeap as a bag of elements in unspecified order (ASSUMED): `pop` / `peek` give a GREATEST element w.r.t. `Ord`
+pub uninterp spec fn heap_view<T, A: core::alloc::Allocator>(h: &std::collections::BinaryHeap<T, A>) -> Seq<T>;
+pub open spec fn heap_max<T: Ord>(s: Seq<T>, x: T) -> bool {
+    forall|j: int| 0 <= j < s.len() ==> vstd::std_specs::cmp::OrdSpec::cmp_spec(&#[trigger] s[j], &x) != core::cmp::Ordering::Greater
+}
+/// the element `pop` / `peek` hand out
+pub uninterp spec fn heap_top<T, A: core::alloc::Allocator>(h: &std::collections::BinaryHeap<T, A>) -> T;
+pub axiom fn axiom_heap_top<T: Ord, A: core::alloc::Allocator>(h: &std::collections::BinaryHeap<T, A>)
+    ensures heap_view(h).len() > 0 ==> heap_max(heap_view(h), heap_top(h)) && exists|i: int| 0 <= i < heap_view(h).len() && #[trigger] heap_view(h)[i] == heap_top(h);
+pub assume_specification<T: Ord, A: core::alloc::Allocator> [std::collections::BinaryHeap::<T, A>::pop] (h: &mut std::collections::BinaryHeap<T, A>) -> (r: Option<T>)
+    ensures
+        heap_view(old(h)).len() == 0 ==> r is None && heap_view(final(h)) == heap_view(old(h)),
+        heap_view(old(h)).len() > 0 ==> r is Some && r->0 == heap_top(old(h)) && heap_max(heap_view(old(h)), r->0)
+            && exists|i: int| 0 <= i < heap_view(old(h)).len() && #[trigger] heap_view(old(h))[i] == r->0 && heap_view(final(h)) == heap_view(old(h)).remove(i);
+pub assume_specification<T: Ord, A: core::alloc::Allocator> [std::collections::BinaryHeap::<T, A>::push] (h: &mut std::collections::BinaryHeap<T, A>, x: T)
+    ensures heap_view(final(h)) == heap_view(old(h)).push(x);
+pub assume_specification<T, A: core::alloc::Allocator> [std::collections::BinaryHeap::<T, A>::peek] (h: &std::collections::BinaryHeap<T, A>) -> (r: Option<&T>)
+    ensures
+        heap_view(h).len() == 0 ==> r is None,
+        heap_view(h).len() > 0 ==> r is Some && *(r->0) == heap_top(h);
 
 // --- [u8] comparison is lexicographic byte order (std documentation) ---
 pub broadcast axiom fn axiom_slice_u8_ord(a: &[u8], b: &[u8])
